@@ -1,6 +1,7 @@
 package main
 
 import (
+	"regexp"
 	"fmt"
 	"go/ast"
 	"go/parser"
@@ -329,6 +330,9 @@ func init() {
 		x.noteAssume("trusted: strings.SplitN(s, sep, 2) yields [s] when s has no sep, else [before first sep, remainder]")
 		return h, true
 	}
+	libModels["strconv.Itoa"] = func(x *Exec, st *State, e *ast.CallExpr, a []Value, _ []types.Type) (Value, bool) {
+		return x.uf("lib_strconv_Itoa", SStr, asTerm(a[0])), true
+	}
 	libModels["strconv.Atoi"] = func(x *Exec, st *State, e *ast.CallExpr, a []Value, _ []types.Type) (Value, bool) {
 		s := asTerm(a[0])
 		x.noteAssume("trusted: strconv.Atoi modelled by atoiVal/atoiErr of specs/common.smt2 (base 10, optional sign, int64 range)")
@@ -389,7 +393,63 @@ func (x *Exec) evalArgs(args []ast.Expr, st *State) ([]Value, []types.Type) {
 	return vs, ts
 }
 
+// sigByName: the signature of the function or method of the package under verification with this name.
+func (x *Exec) sigByName(name string) *types.Signature {
+	var best *types.Func
+	for fn, p := range x.L.declPkg {
+		if p == x.pkg && fn.Name() == name && (best == nil || fn.Pos() < best.Pos()) {
+			best = fn
+		}
+	}
+	if best == nil {
+		return nil
+	}
+	return best.Type().(*types.Signature)
+}
+
+var callRecordRx = regexp.MustCompile(`\b(called|lastArg|lastRes)\(`)
+
+// recordedCallee: the simple name of the statically known callee when `opt record-calls` lists it.
+func (x *Exec) recordedCallee(e *ast.CallExpr) string {
+	if x.con == nil || x.con.Opts["record-calls"] == "" || x.contract {
+		return ""
+	}
+	nm := ""
+	switch fe := unparen(e.Fun).(type) {
+	case *ast.SelectorExpr:
+		nm = fe.Sel.Name
+	case *ast.Ident:
+		nm = fe.Name
+	}
+	for _, w := range strings.Split(x.con.Opts["record-calls"], ",") {
+		if strings.TrimSpace(w) == nm && nm != "" {
+			return nm
+		}
+	}
+	return ""
+}
+
+// evalCall evaluates a call; for callees named by `opt record-calls` the arguments and results of the
+// latest call are kept as ghost state (called(f), lastArg(f, k), lastRes(f, k) in contracts).
 func (x *Exec) evalCall(e *ast.CallExpr, st *State) (Value, types.Type) {
+	v, t := x.evalCall0(e, st)
+	if nm := x.recordedCallee(e); nm != "" {
+		st.names["$lastres:"+nm] = v
+		if t != nil {
+			st.names["$lastrestype:"+nm] = t
+		}
+		if x.depth == 0 && x.litDepth == 0 {
+			for _, w := range strings.Split(x.con.Opts["return-after"], ",") {
+				if strings.TrimSpace(w) == nm {
+					st.names["$cut"] = boolLit(true)
+				}
+			}
+		}
+	}
+	return v, t
+}
+
+func (x *Exec) evalCall0(e *ast.CallExpr, st *State) (Value, types.Type) {
 	if v, ok := st.calls[e]; ok {
 		return v, x.typeOf(e)
 	}
@@ -494,6 +554,19 @@ func (x *Exec) evalCall(e *ast.CallExpr, st *State) (Value, types.Type) {
 		return x.opaqueResult(e, st), x.typeOf(e)
 	}
 	name := calleeName(f.Decl)
+	explicit, explicitT := args, append([]types.Type{}, ats...)
+	if f.Recv != nil {
+		explicit, explicitT = args[1:], explicitT[1:]
+	}
+	for i := range explicitT {
+		if explicitT[i] == nil && i < len(e.Args) {
+			explicitT[i] = x.typeOf(e.Args[i])
+		}
+	}
+	if nm := x.recordedCallee(e); nm != "" {
+		st.names["$lastargs:"+nm] = TupleV(append([]Value{}, explicit...))
+		st.names["$lastargtypes:"+nm] = append([]types.Type{}, explicitT...)
+	}
 	if x.con != nil {
 		if g := x.con.Opts["call-guard:"+f.Decl.Name()]; g != "" && !x.contract {
 			ge, err := parser.ParseExpr(rewriteImplies(g))
@@ -502,7 +575,12 @@ func (x *Exec) evalCall(e *ast.CallExpr, st *State) (Value, types.Type) {
 			}
 			save := x.saveContractCtx()
 			x.contract = true
+			// arg(k) in the guard: the k-th explicit argument of this call
+			st.names["$guardargs"] = TupleV(append([]Value{}, explicit...))
+			st.names["$guardargtypes"] = append([]types.Type{}, explicitT...)
 			phi := x.evalBool(ge, st)
+			delete(st.names, "$guardargs")
+			delete(st.names, "$guardargtypes")
 			x.restoreContractCtx(save)
 			x.oblige(st, "pre", "guard@"+f.Decl.Name(), phi, g)
 		}
@@ -1104,6 +1182,9 @@ func (x *Exec) applyContract(c *Contract, f *types.Func, e *ast.CallExpr, args [
 			if strings.HasPrefix(en.Prop, "local:") {
 				continue // about a local of the callee: not visible to callers
 			}
+			if callRecordRx.MatchString(en.Src) {
+				continue // about the callee's own call records (called/lastArg/lastRes): not visible to callers
+			}
 			st.assume(x.evalBool(en.Expr, st))
 		}
 		x.assuming = false
@@ -1257,6 +1338,85 @@ func (x *Exec) evalSpecCall(e *ast.CallExpr, st *State) (Value, types.Type) {
 			return v, t
 		}
 		return v, nil
+	case "arg": // arg(k) inside a call-guard: the k-th explicit argument of the guarded call
+		tv, ok := st.names["$guardargs"].(TupleV)
+		lit, ok2 := e.Args[0].(*ast.BasicLit)
+		if !ok || !ok2 {
+			engineFail("arg(k) is only available in a call-guard, with a literal k")
+		}
+		var k int
+		fmt.Sscan(lit.Value, &k)
+		if k >= len(tv) {
+			engineFail("arg(%d): the guarded call has %d arguments", k, len(tv))
+		}
+		var at types.Type
+		if ts, ok := st.names["$guardargtypes"].([]types.Type); ok && k < len(ts) {
+			at = ts[k]
+		}
+		return tv[k], at
+	case "called": // called(f): a call of f (listed in `opt record-calls`) was executed on this path
+		id, _ := e.Args[0].(*ast.Ident)
+		if id == nil {
+			engineFail("called needs a function name")
+		}
+		_, ok := st.names["$lastres:"+id.Name]
+		return boolLit(ok), types.Typ[types.Bool]
+	case "lastArg", "lastRes": // argument / result k of the latest recorded call of f (unconstrained when there was none)
+		id, _ := e.Args[0].(*ast.Ident)
+		lit, _ := e.Args[1].(*ast.BasicLit)
+		if id == nil || lit == nil {
+			engineFail("%s needs (function name, literal index)", name)
+		}
+		var k int
+		fmt.Sscan(lit.Value, &k)
+		sig := x.sigByName(id.Name)
+		if name == "lastArg" {
+			tv, ok := st.names["$lastargs:"+id.Name].(TupleV)
+			if !ok || k >= len(tv) {
+				if sig != nil && k < sig.Params().Len() {
+					return x.fresh("nocall", x.sortOf(sig.Params().At(k).Type())), sig.Params().At(k).Type()
+				}
+				return x.fresh("nocall", SInt), nil
+			}
+			var at types.Type
+			if ts, ok := st.names["$lastargtypes:"+id.Name].([]types.Type); ok && k < len(ts) {
+				at = ts[k]
+			}
+			return tv[k], at
+		}
+		rv, ok := st.names["$lastres:"+id.Name]
+		if !ok {
+			if sig != nil && k < sig.Results().Len() {
+				return x.fresh("nocall", x.sortOf(sig.Results().At(k).Type())), sig.Results().At(k).Type()
+			}
+			return x.fresh("nocall", SInt), nil
+		}
+		rt, _ := st.names["$lastrestype:"+id.Name].(types.Type)
+		if tv, isT := rv.(TupleV); isT {
+			if k >= len(tv) {
+				engineFail("lastRes(%s, %d): the call has %d results", id.Name, k, len(tv))
+			}
+			var et types.Type
+			if tt, ok := rt.(*types.Tuple); ok && k < tt.Len() {
+				et = tt.At(k).Type()
+			}
+			return tv[k], et
+		}
+		return rv.(Value), rt
+	case "oldAt": // oldAt(m, k): m[k] with m's contents taken in the old state and k evaluated now
+		if st.old == nil {
+			engineFail("oldAt() outside a postcondition")
+		}
+		kv, _ := x.eval(e.Args[1], st)
+		x.nfresh++
+		kn := fmt.Sprintf("oldAtKey%d", x.nfresh)
+		if x.quant == nil {
+			x.quant = map[string]Term{}
+		}
+		x.quant[kn] = asTerm(kv)
+		defer delete(x.quant, kn)
+		ix := &ast.IndexExpr{X: e.Args[0], Index: &ast.Ident{Name: kn}}
+		return x.evalSpecCall(&ast.CallExpr{Fun: &ast.Ident{Name: "old"}, Args: []ast.Expr{ix}}, st)
 	case "calledAt": // calledAt(k): the k-th function value applied through reflect.Value.Call
 		k := x.evalT(e.Args[0], st)
 		seq := asTerm(st.names["callSeq"])
@@ -1372,7 +1532,7 @@ func (x *Exec) evalSpecCall(e *ast.CallExpr, st *State) (Value, types.Type) {
 					}
 				}
 				switch id.Name {
-				case "implies", "iff", "ite", "old", "forall", "exists", "len", "has", "fresh", "substr", "nth", "forallS", "existsS", "forallR", "existsR", "atSelect", "calledAt", "tracedAt", "rvInt", "rvFloat", "rvComplex", "rvString", "rvBool", "rvIface":
+				case "implies", "iff", "ite", "old", "forall", "exists", "len", "has", "fresh", "substr", "nth", "forallS", "existsS", "forallR", "existsR", "atSelect", "calledAt", "tracedAt", "arg", "called", "lastArg", "lastRes", "oldAt", "rvInt", "rvFloat", "rvComplex", "rvString", "rvBool", "rvIface":
 					isSpec = true
 				}
 			}
